@@ -171,6 +171,67 @@ def feasible(st, ctx, timeout_ms=3000):
     return r.status != "proved"
 
 
+class AutoScanLoop:
+    """`while i < len(L) and <test on L[i]>: i += 1` with nothing else in the body: the invariant is derived
+    mechanically -- 0 <= i <= len(L), and the test held at every position before i -- and then proved like a
+    hand-written one (init / preserve obligations).  Its clauses are auxiliary: if one of them cannot be proved the
+    unit is undecided, never a violation (names start with `auto.`)."""
+    variant = None
+    props = ()
+
+    def __init__(self, idx, lst_expr, test):
+        self.idx, self.lst_expr, self.test = idx, lst_expr, test
+
+    @staticmethod
+    def match(node):
+        t = node.test
+        if not (isinstance(t, ast.BoolOp) and isinstance(t.op, ast.And) and len(t.values) == 2):
+            return None
+        c, test = t.values
+        if not (isinstance(c, ast.Compare) and len(c.ops) == 1 and isinstance(c.ops[0], ast.Lt) and isinstance(c.left, ast.Name)
+                and isinstance(c.comparators[0], ast.Call) and isinstance(c.comparators[0].func, ast.Name)
+                and c.comparators[0].func.id == "len" and len(c.comparators[0].args) == 1):
+            return None
+        idx = c.left.id
+        if not (len(node.body) == 1 and isinstance(node.body[0], ast.AugAssign) and isinstance(node.body[0].op, ast.Add)
+                and isinstance(node.body[0].target, ast.Name) and node.body[0].target.id == idx
+                and isinstance(node.body[0].value, ast.Constant) and node.body[0].value.value == 1):
+            return None
+        for n in ast.walk(test):
+            if isinstance(n, (ast.Call, ast.Yield, ast.YieldFrom, ast.NamedExpr)):
+                return None
+        return AutoScanLoop(idx, c.comparators[0].args[0], test)
+
+    def havoc(self, ex, st, node, ordinal):
+        nm = "scan%s.%s" % (logic.fresh("n").decl().name().split("!")[1], self.idx)
+        st.loc[self.idx] = Num(z3.Int(nm))
+        logic.REG.index_consts.add(nm)
+
+    def inv(self, ex, entry, st, mode):
+        i = st.loc[self.idx]
+        if not isinstance(i, Num):
+            raise Unsupported("scan index %s is not a number" % self.idx)
+        rs = ex.eval(self.lst_expr, st)
+        if len(rs) != 1 or isinstance(rs[0][0], Exc):
+            raise Unsupported("scanned list expression")
+        lst = ex.deref(rs[0][0], rs[0][1])
+        if not isinstance(lst, SList):
+            raise Unsupported("scan over %r" % (lst,))
+
+        def held(j):
+            s = st.fork()
+            s.loc[self.idx] = Num(j)
+            s.pc.append(z3.And(0 <= j, j < lst.len))
+            rs = [(v, s2) for v, s2 in ex.eval(self.test, s) if not isinstance(v, Exc)]
+            if not rs:
+                return z3.BoolVal(True)      # this instance lies outside the list: nothing to state
+            if len(rs) != 1:
+                raise Unsupported("scan test is not a total, non-branching expression")
+            return z3.Implies(z3.And(0 <= j, j < i.t), V.truth(ex.deref(rs[0][0], rs[0][1])))
+        return [("auto.index-range", z3.And(0 <= i.t, i.t <= lst.len)),
+                ("auto.test-held-at-every-scanned-position", logic.Forall(1, held, [lst.len], "auto-scan"))]
+
+
 def _same_dict(a, b):
     return a.keys() == b.keys() and all(a[k] is b[k] or (isinstance(a[k], z3.ExprRef) and isinstance(b[k], z3.ExprRef)
                                                            and a[k].eq(b[k])) for k in a)
@@ -484,6 +545,13 @@ class Exec:
                 outs.append((vals, s))
                 continue
             base = self.deref(vals[0], s)
+            if isinstance(base, VOpt) and isinstance(base.val, SList):
+                exs, ok = self.raise_if(s, base.isnone, "TypeError", node.lineno, "slice of None")
+                outs.extend(exs)
+                if ok is None:
+                    continue
+                s = ok
+                base = base.val
             if not isinstance(base, SList):
                 raise Unsupported("slice of %r" % (base,))
             k = 1
@@ -1069,7 +1137,15 @@ class Exec:
             if not isinstance(base, SList):
                 raise Unsupported("enumerate of %r" % (base,))
             at = base.at
-            return [(SList(base.len, lambda i: VTuple([Num(i), at(i)]), ("tuple", [("num", "int"), base.ekind])), st)]
+            off = V.as_num(kw["start"]).t if "start" in kw else z3.IntVal(0)
+            return [(SList(base.len, lambda i: VTuple([Num(i + off), at(i)]), ("tuple", [("num", "int"), base.ekind])), st)]
+        if name == "zip" and len(args) == 2:
+            a, b = self.deref(args[0], st), self.deref(args[1], st)
+            if isinstance(a, SList) and isinstance(b, SList):
+                aa, ba = a.at, b.at
+                n = z3.If(a.len <= b.len, a.len, b.len)
+                return [(SList(n, lambda i: VTuple([aa(i), ba(i)]), ("tuple", [a.ekind, b.ekind])), st)]
+            raise Unsupported("zip of %r and %r" % (a, b))
         if (name == "getattr" and len(args) == 3 and isinstance(args[1], VStr) and z3.is_int_value(args[1].t)
                 and isinstance(args[2], VNone) and isinstance(self.deref(args[0], st), VObj)):
             # getattr(obj, "name", None): the attribute's value, or None when the object has no such attribute
@@ -1244,6 +1320,8 @@ class Exec:
                 # a dynamic number stored in a numeric list (the code has compared it with numbers before)
                 x = Num(z3.ToInt(x.num)) if lst.ekind[1] == "int" else Num(x.num)
             write(s, V.list_append(lst, x))
+            if isinstance(base, FieldRef):
+                s.ghost.setdefault("sort_pos", []).append(lst.len)     # appended = inserted at the end (ghost witness)
             return [(NONE, s)]
         if name == "pop":
             if args:
@@ -1262,6 +1340,10 @@ class Exec:
             i = z3.If(i < 0, 0, z3.If(i > lst.len, lst.len, i))
             s = st.fork()
             write(s, V.list_insert(lst, i, self.deref(args[1], st)))
+            if isinstance(base, FieldRef):
+                # ghost: where an element was inserted into a field list (witness for "exists a position" contracts,
+                # exactly like the position a sort() moved the last element to)
+                s.ghost.setdefault("sort_pos", []).append(i)
             return [(NONE, s)]
         if name in ("index", "remove"):
             outs = []
@@ -1621,6 +1703,8 @@ class Exec:
             ordinal = ctx.loop_ord
             ctx.loop_ord += 1
         spec = ctx.loop_invs.get(ordinal)
+        if spec is None and kind == "while":
+            spec = AutoScanLoop.match(node)          # derived invariant for a plain linear scan (checked like any other)
         if spec is None:
             raise Unsupported("loop #%d at line %d of %s.%s has no invariant" % (ordinal, node.lineno, ctx.cls, ctx.fname))
         if node.orelse:
